@@ -183,6 +183,11 @@ func (f *fakeCtx) finish(err error) {
 	}
 }
 
+type instCtx struct {
+	inst any
+	fc   *fakeCtx
+}
+
 // ---------- scenario state ----------
 
 type supCfg struct {
@@ -203,7 +208,7 @@ type supH struct {
 	cfg     map[string]supCfg
 	r       *app.ProjectRunner
 	cmds    []*fakeCmd
-	stopCtx map[string]*fakeCtx
+	stopCtx map[string][]*instCtx // per name: the instances that armed a kill timeout, oldest first, each with its latest context
 	cur     *verif.Thread
 	dead    bool
 	stopLog []string
@@ -214,7 +219,7 @@ type supH struct {
 func init() { Register("sup", func() Component { return &supH{} }) }
 
 func (h *supH) reset(gran string, ordered bool) {
-	*h = supH{gran: gran, ordered: ordered, cfg: map[string]supCfg{}, stopCtx: map[string]*fakeCtx{}}
+	*h = supH{gran: gran, ordered: ordered, cfg: map[string]supCfg{}, stopCtx: map[string][]*instCtx{}}
 	verif.Reset(true, gran == "fine")
 	app.VerifCommander = func(name string, conf *types.ProcessConfig, args []string) command.Commander {
 		return &fakeCmd{h: h, name: name, conf: conf}
@@ -225,10 +230,20 @@ func (h *supH) reset(gran string, ordered bool) {
 		}
 		return 0
 	}
-	app.VerifStopCtx = func(name string, c context.Context, f context.CancelFunc) (context.Context, context.CancelFunc) {
+	// the kill-timeout context is a field of the process instance: a later stop of the same instance
+	// replaces it (every waiter reads the field), another instance of the name has its own
+	app.VerifStopCtxOf = func(inst any, name string, c context.Context, f context.CancelFunc) (context.Context, context.CancelFunc) {
 		f()
 		fc := &fakeCtx{done: make(chan struct{})}
-		h.stopCtx[name] = fc
+		found := false
+		for _, ic := range h.stopCtx[name] {
+			if ic.inst == inst {
+				ic.fc, found = fc, true
+			}
+		}
+		if !found {
+			h.stopCtx[name] = append(h.stopCtx[name], &instCtx{inst: inst, fc: fc})
+		}
 		return fc, func() { fc.finish(context.Canceled) }
 	}
 }
@@ -563,8 +578,13 @@ func (h *supH) Exec(op string) string {
 		if len(w) != 3 {
 			return "bad-op"
 		}
-		if fc := h.stopCtx[w[2]]; fc != nil {
-			fc.finish(context.DeadlineExceeded)
+		// the timer of the oldest instance of that name with a pending kill timeout fires (the model's
+		// `killTimeout` picks the first instance of the name whose context is armed)
+		for _, ic := range h.stopCtx[w[2]] {
+			if ic.fc.Err() == nil {
+				ic.fc.finish(context.DeadlineExceeded)
+				break
+			}
 		}
 	default:
 		return "bad-op"
@@ -590,9 +610,12 @@ func (h *supH) aliveNames() []string {
 
 func (h *supH) armedCtxs() []string {
 	l := []string{}
-	for n, fc := range h.stopCtx {
-		if fc.Err() == nil {
-			l = append(l, n)
+	for n, ics := range h.stopCtx {
+		for _, ic := range ics {
+			if ic.fc.Err() == nil {
+				l = append(l, n)
+				break
+			}
 		}
 	}
 	sort.Strings(l)
